@@ -101,6 +101,19 @@ def run_pipeline(cx: Ctx, proto, vals, parts, pipeline: str, rng=None, cpp_batch
             if err is not None:
                 return "%s raised %r" % (hop, err)
             return sw.flat_equal(env, ns, proto, flat, d, numeric)
+        elif hop in ("py.rwb", "py.rwj"):
+            # read into Python objects, same values in another in-memory representation, written by a fresh writer
+            assert fmt == "binary", (pipeline, fmt)
+            fout = "binary" if hop == "py.rwb" else "ndjson"
+            with runner.time_limit(60):
+                # (representation choices derive from the case itself, so that a replay makes the same ones)
+                import hashlib
+                rw = M.derive(cx.task["seed"], "rw", cx.task["i"], proto.name, pipeline, hashlib.sha1(repr(vals).encode()).hexdigest())
+                out, err = P.rewrite(model, proto, data, fout, rw, cx.stats)
+            if err is not None:
+                return "%s raised %r" % (hop, err)
+            data, fmt = out, fout
+            numeric = numeric or fout == "ndjson"
         elif hop.startswith("py."):
             fin = {"b": "binary", "j": "ndjson"}[hop[3]]
             fout = {"b": "binary", "j": "ndjson"}[hop[5]]
@@ -153,17 +166,17 @@ def run_pipeline(cx: Ctx, proto, vals, parts, pipeline: str, rng=None, cpp_batch
 
 PIPES = {
     "C01": {
-        "py": ["ref.bin>py.read.bin", "ref.bin>py.b2b>ref.dec", "ref.bin>py.b2b>ref.exact", "ref.bin>py.b2b>py.read.bin"],
+        "py": ["ref.bin>py.read.bin", "ref.bin>py.b2b>ref.dec", "ref.bin>py.b2b>ref.exact", "ref.bin>py.b2b>py.read.bin", "ref.bin>py.rwb>ref.dec"],
         "cpp": ["ref.bin>cpp.b2b>ref.dec", "ref.bin>cpp.b2b>ref.exact"],
     },
     "C02": {
-        "py": ["ref.json>py.read.json", "ref.bin>py.b2j>ref.dec", "ref.bin>py.b2j>py.j2b>ref.dec", "ref.json>py.j2b>py.b2j>ref.dec", "ref.json>py.j2j>ref.dec"],
+        "py": ["ref.json>py.read.json", "ref.bin>py.b2j>ref.dec", "ref.bin>py.b2j>py.j2b>ref.dec", "ref.json>py.j2b>py.b2j>ref.dec", "ref.json>py.j2j>ref.dec", "ref.bin>py.rwj>ref.dec"],
         "cpp": ["ref.json>cpp.j2b>ref.dec", "ref.bin>cpp.b2j>ref.dec", "ref.bin>cpp.b2j>cpp.j2b>ref.dec", "ref.json>cpp.j2j>ref.dec"],
     },
     "C03": {
         "py": [],
         "cpp": ["ref.bin>cpp.b2b>py.read.bin", "ref.bin>py.b2b>cpp.b2b>ref.dec", "ref.bin>cpp.b2j>py.read.json", "ref.bin>py.b2j>cpp.j2b>ref.dec",
-                "ref.json>cpp.j2b>py.b2j>ref.dec", "ref.json>py.j2b>cpp.b2j>ref.dec", "ref.bin>cpp.b2b>py.b2b>ref.exact", "ref.bin>py.b2j>cpp.j2j>py.read.json"],
+                "ref.json>cpp.j2b>py.b2j>ref.dec", "ref.json>py.j2b>cpp.b2j>ref.dec", "ref.bin>cpp.b2b>py.b2b>ref.exact", "ref.bin>py.b2j>cpp.j2j>py.read.json", "ref.bin>py.rwb>cpp.b2b>ref.dec"],
     },
 }
 
